@@ -91,7 +91,7 @@ def run_benign(m):
         env = dict(os.environ)
         env["VERIF_REPO"] = dst
         env["VERIF_EVIDENCE_DIR"] = os.path.join(t, "evidence")
-        r = subprocess.run([os.path.join(VERIF, "vf"), "all", "--tier", "quick"], cwd=VERIF, env=env, stdout=subprocess.PIPE, stderr=subprocess.STDOUT, text=True)
+        r = subprocess.run([os.path.join(VERIF, "vf"), "all", "--tier", os.environ.get("VF_SELFTEST_TIER", "quick")], cwd=VERIF, env=env, stdout=subprocess.PIPE, stderr=subprocess.STDOUT, text=True)
         if "does not compile in configuration" in r.stdout:
             return m["name"], "NOCOMPILE", r.stdout[-1500:]
         if r.returncode != 0 or "VIOLATION" in r.stdout:
